@@ -672,7 +672,7 @@ func monitorVerifyPath(t *testing.T, r *vh.Run) {
 					x := rnd.Intn(20)
 					switch {
 					case x == 0:
-						d := []time.Duration{skew / 2, skew, skew + time.Microsecond}[rnd.Intn(3)]
+						d := []time.Duration{skew / 2, skew, skew + time.Microsecond, skew + 500*time.Millisecond, time.Second - time.Microsecond, 300 * time.Millisecond}[rnd.Intn(6)]
 						time.Sleep(d)
 						hist = append(hist, op{Kind: "advance", Advance: d.String()})
 					case x == 1:
@@ -698,9 +698,8 @@ func monitorVerifyPath(t *testing.T, r *vh.Run) {
 						}
 						now := time.Now()
 						ct := m.k.ctime.Add(time.Duration(m.k.cusec) * time.Microsecond)
-						if now.Sub(ct) > skew || ct.Sub(now) > skew {
-							continue
-						}
+						// outside the window the request is presented all the same: it must not be accepted (again); any error will do
+						outside := now.Sub(ct) > skew || ct.Sub(now) > skew
 						var a messages.APReq
 						if err := a.Unmarshal(m.req); err != nil {
 							panic("unmarshal of reference AP-REQ: " + err.Error())
@@ -712,6 +711,9 @@ func monitorVerifyPath(t *testing.T, r *vh.Run) {
 						o := op{Kind: "present", Key: m.k.String(), Call: c, Return: clk}
 						if ok {
 							o.Replay = false
+						} else if outside {
+							hist = append(hist, op{Kind: "present-outside-window-rejected", Key: m.k.String(), Call: c, Return: clk})
+							continue
 						} else if ke, isK := err.(messages.KRBError); isK && ke.ErrorCode == 34 {
 							o.Replay = true
 						} else {
